@@ -2,6 +2,7 @@ package main
 
 import (
 	"fmt"
+	"go/token"
 	"go/types"
 	"strings"
 
@@ -43,14 +44,14 @@ type selState struct {
 }
 
 type concState struct {
-	main    *gor
-	cur     *gor
-	runq    []*gor
-	all     []*gor
-	nextID  int
-	wgs     map[Ptr]*wgState
-	mus     map[Ptr]*muState
-	events  int // sync events so far (cancellation instants are indexed by this)
+	main   *gor
+	cur    *gor
+	runq   []*gor
+	all    []*gor
+	nextID int
+	wgs    map[Ptr]*wgState
+	mus    map[Ptr]*muState
+	events int // sync events so far (cancellation instants are indexed by this)
 }
 
 type wgState struct {
@@ -658,4 +659,40 @@ func (e *Engine) registerConcIntrinsics() {
 		}
 	}
 	_ = fmt.Sprint
+}
+
+// sync/atomic: under the cooperative scheduler one interpreted goroutine runs at a time and control changes hands
+// only at blocking operations, so the atomic functions are plain loads, stores and read-modify-writes.
+func (e *Engine) registerAtomicIntrinsics() {
+	in := e.intrinsics
+	kinds := map[string]types.Type{"Int32": types.Typ[types.Int32], "Int64": types.Typ[types.Int64], "Uint32": types.Typ[types.Uint32],
+		"Uint64": types.Typ[types.Uint64], "Uintptr": types.Typ[types.Uintptr]}
+	for name, t := range kinds {
+		t := t
+		in["sync/atomic.Load"+name] = func(r *Run, fr *frame, a []Value) Value { return copyVal(*a[0].(Ptr)) }
+		in["sync/atomic.Store"+name] = func(r *Run, fr *frame, a []Value) Value { *a[0].(Ptr) = copyVal(a[1]); return nil }
+		in["sync/atomic.Swap"+name] = func(r *Run, fr *frame, a []Value) Value {
+			old := copyVal(*a[0].(Ptr))
+			*a[0].(Ptr) = copyVal(a[1])
+			return old
+		}
+		in["sync/atomic.Add"+name] = func(r *Run, fr *frame, a []Value) Value {
+			v := r.binop(token.ADD, t, *a[0].(Ptr), a[1])
+			*a[0].(Ptr) = v
+			return copyVal(v)
+		}
+		in["sync/atomic.CompareAndSwap"+name] = func(r *Run, fr *frame, a []Value) Value {
+			eq := r.binop(token.EQL, t, *a[0].(Ptr), a[1]).(BoolV)
+			same := eq.C
+			if eq.S != nil {
+				same = r.branch(eq.S)
+			}
+			if same {
+				*a[0].(Ptr) = copyVal(a[2])
+			}
+			return BoolV{C: same}
+		}
+	}
+	in["sync/atomic.LoadPointer"] = func(r *Run, fr *frame, a []Value) Value { return *a[0].(Ptr) }
+	in["sync/atomic.StorePointer"] = func(r *Run, fr *frame, a []Value) Value { *a[0].(Ptr) = a[1]; return nil }
 }
